@@ -1,11 +1,15 @@
 /-
 C20 — Cron: jobs run exactly at the minutes their spec denotes.
 
-Model: ErgoVerif.Model.Cron (node/cron_parse.go), ErgoVerif.Model.CronSched (node/cron.go).
+Models: ErgoVerif.Model.Cron (node/cron_parse.go: parser, mask compiler, IsRunAt, denotation),
+        ErgoVerif.Model.CronSched (node/cron.go: cron object, timer function, Schedule/JobSchedule).
+The models follow the code after the `fix:` commits for D8, D9, D17 and the two timer-function repairs.
 -/
-import ErgoVerif.Lemmas.CronSpec
+import ErgoVerif.Lemmas.CronReach
 namespace ErgoVerif.Props.C20
-open ErgoVerif.Cron ErgoVerif.Generated.Cron
+open ErgoVerif.Cron ErgoVerif.CronSched ErgoVerif.Generated.Cron
+
+/-! ## The matcher -/
 
 /-- For every valid spec and every well-formed civil time the code's matcher on the compiled bit masks
     (cronSpecMask.IsRunAt ∘ cronParseSpecField) equals the crontab denotation: lists, ranges, steps, `L`, `wL`, `w#n`,
@@ -20,5 +24,142 @@ example : (⟨.list [.starStep 15, .num 59], .list [.rangeStep 0 23 2], .list [.
 example : (⟨2026, 3, 31, 22, 45, 2⟩ : Civil).wf := by decide
 example : specIsRunAt (compileSpec ⟨.list [.starStep 15], .star, .list [.last], .star, .list [.lastW 7]⟩) ⟨2026, 3, 31, 22, 45, 2⟩ = true := by decide
 example : specIsRunAt (compileSpec ⟨.list [.starStep 15], .star, .list [.last], .star, .list [.lastW 7]⟩) ⟨2026, 3, 30, 22, 45, 1⟩ = false := by decide
+
+/-! ## The parser -/
+
+/-- cronParseSpec accepts only texts that denote an AST of the grammar: values inside the field bounds, ascending
+    ranges, steps 1..max, `L` only in the day field, `wL`/`w#n` only in the weekday field, no empty list, five fields -/
+theorem C20_parse_sound (cs : List Char) (s : Spec) (h : parseSpec cs = some s) : s.valid = true :=
+  parseSpec_valid h
+
+/-- the anchors the parser model was written against are the ones in the working tree -/
+theorem C20_anchor_fields : fieldCount = 5 ∧
+    (cronFieldMin.min, cronFieldMin.max) = (0, 59) ∧ (cronFieldHour.min, cronFieldHour.max) = (0, 23) ∧
+    (cronFieldDay.min, cronFieldDay.max) = (1, 31) ∧ (cronFieldMonth.min, cronFieldMonth.max) = (1, 12) ∧
+    (cronFieldWeekDay.min, cronFieldWeekDay.max) = (1, 7) := by decide
+
+theorem C20_anchor_regexps :
+    cronFieldMin.reg = "^(?:\\*$|\\*/\\d+|\\d+-\\d+|\\d+-\\d+/\\d+|\\d+)$" ∧
+    cronFieldHour.reg = "^(?:\\*$|\\*/\\d+|\\d+-\\d+|\\d+-\\d+/\\d+|\\d+)$" ∧
+    cronFieldDay.reg = "^(?:\\*$|\\*/\\d+|\\d+-\\d+|\\d+-\\d+/\\d+|L|\\d+)$" ∧
+    cronFieldMonth.reg = "^(?:\\*$|\\*/\\d+|\\d+-\\d+|\\d+)$" ∧
+    cronFieldWeekDay.reg = "^(?:\\*$|\\d+-\\d+|[1-7]L|\\d+|[1-7]#[1-5])$" := by decide
+
+/-- the mask types are pairwise distinct nibbles at bit 60 and the field defaults carry their own type -/
+theorem C20_anchor_masks :
+    cronMaskType = 15 <<< 60 ∧ cronMaskTypeLastDM = 1 <<< 60 ∧ cronMaskTypeLastDW = 2 <<< 60 ∧ cronMaskTypeNDW = 3 <<< 60 ∧
+    cronFieldMin.mask = 10 <<< 60 ∧ cronFieldHour.mask = 11 <<< 60 ∧ cronFieldDay.mask = 12 <<< 60 ∧
+    cronFieldMonth.mask = 13 <<< 60 ∧ cronFieldWeekDay.mask = 14 <<< 60 ∧
+    cronFieldMin.mask = cronMaskTypeMin ∧ cronFieldHour.mask = cronMaskTypeHour ∧ cronFieldDay.mask = cronMaskTypeDay ∧
+    cronFieldMonth.mask = cronMaskTypeMonth ∧ cronFieldWeekDay.mask = cronMaskTypeWeekDay := by decide
+
+/-- the macros are plain five-field specs -/
+theorem C20_macros :
+    (parseSpec "@hourly".toList).map Spec.print = some "1 * * * *".toList ∧
+    (parseSpec "@daily".toList).map Spec.print = some "10 3 * * *".toList ∧
+    (parseSpec "@monthly".toList).map Spec.print = some "20 4 1 * *".toList ∧
+    (parseSpec "@weekly".toList).map Spec.print = some "30 5 * * 1".toList := by decide
+
+/-- malformed classes are rejected (one representative each; the general statement is C20_parse_sound) -/
+theorem C20_rejects :
+    parseSpec "* * * *".toList = none ∧ parseSpec "* * * * * *".toList = none ∧ parseSpec "".toList = none ∧
+    parseSpec "60 * * * *".toList = none ∧ parseSpec "* 24 * * *".toList = none ∧ parseSpec "* * 0 * *".toList = none ∧
+    parseSpec "* * * 13 *".toList = none ∧ parseSpec "* * * * 0".toList = none ∧ parseSpec "* * * * 8".toList = none ∧
+    parseSpec "5-4 * * * *".toList = none ∧ parseSpec "*/0 * * * *".toList = none ∧ parseSpec "*/60 * * * *".toList = none ∧
+    parseSpec "*,1 * * * *".toList = none ∧ parseSpec "1,,2 * * * *".toList = none ∧ parseSpec "L * * * *".toList = none ∧
+    parseSpec "* * * * L".toList = none ∧ parseSpec "* * 1L * *".toList = none ∧ parseSpec "* * * * 1#6".toList = none ∧
+    parseSpec "* * * * 8L".toList = none ∧ parseSpec "* * * 1-6/2 *".toList = none ∧ parseSpec "* * * * */2".toList = none ∧
+    parseSpec "@yearly".toList = none ∧ parseSpec "-1 * * * *".toList = none ∧ parseSpec "1x * * * *".toList = none := by decide
+
+/-! ## The scheduler -/
+
+section sched
+variable (civil : CivilFn) (hciv : ∀ loc m, (civil loc m).wf)
+include hciv
+
+/-- For every history of AddJob/RemoveJob/EnableJob/DisableJob calls and timer-function runs (at any wall-clock
+    minutes): the timer function running at minute `now` runs job object p  ⇔  it runs in the minute the spool was
+    filled for ∧ p is present ∧ enabled ∧ p's spec denotes `now` in p's location; and it runs p at most once. -/
+theorem C20_fires (s : Sched) (hr : Reach civil s) (now : Int) :
+    (firedAt civil s now).Nodup ∧
+    ∀ p, p ∈ firedAt civil s now ↔
+      (now = s.next ∧ p ∈ s.jobs ∧ (s.objs p).disable = false ∧
+        (s.objs p).spec.denote (civil (s.objs p).loc now) = true) := by
+  obtain ⟨h1, h2⟩ := fired_iff civil s (reach_inv civil hr) now
+  refine ⟨h1, fun p => ?_⟩
+  rw [h2 p]
+  constructor
+  · rintro ⟨a, b, c, d⟩
+    exact ⟨a, b, c, by rw [← runsAt_eq_denote civil hr hciv p b now]; exact d⟩
+  · rintro ⟨a, b, c, d⟩
+    exact ⟨a, b, c, by rw [runsAt_eq_denote civil hr hciv p b now]; exact d⟩
+
+/-- soundness, every history and every tick time: whatever runs at minute `now` is present, enabled and matches `now`
+    (so a disabled or removed job never runs, and nothing runs at a minute outside its spec) -/
+theorem C20_fires_sound (s : Sched) (hr : Reach civil s) (now : Int) (p : Nat) (hp : p ∈ firedAt civil s now) :
+    p ∈ s.jobs ∧ (s.objs p).disable = false ∧ (s.objs p).spec.denote (civil (s.objs p).loc now) = true :=
+  (((C20_fires civil hciv s hr now).2 p).mp hp).2
+
+/-- completeness for a timer that runs in the minute it was armed for (c.next): every present, enabled job whose spec
+    denotes that minute runs -/
+theorem C20_fires_complete (s : Sched) (hr : Reach civil s) (p : Nat) (hp : p ∈ s.jobs)
+    (he : (s.objs p).disable = false) (hm : (s.objs p).spec.denote (civil (s.objs p).loc s.next) = true) :
+    p ∈ firedAt civil s s.next :=
+  ((C20_fires civil hciv s hr s.next).2 p).mpr ⟨rfl, hp, he, hm⟩
+
+/-- at most once per minute -/
+theorem C20_fires_once (s : Sched) (hr : Reach civil s) (now : Int) : (firedAt civil s now).Nodup :=
+  (C20_fires civil hciv s hr now).1
+
+/-- JobSchedule lists exactly the minutes of the window [since truncated to the minute, + period) that the job's spec
+    denotes in the job's location, in ascending order; it fails exactly for unknown names -/
+theorem C20_jobSchedule (s : Sched) (hr : Reach civil s) (name : Nat) (sinceNs periodNs : Int) :
+    (jobSchedule civil s name sinceNs periodNs = none ↔ findJob s name = none) ∧
+    ∀ l, jobSchedule civil s name sinceNs periodNs = some l →
+      ∃ p, findJob s name = some p ∧ p ∈ s.jobs ∧ (s.objs p).name = name ∧ l.Pairwise (· < ·) ∧
+        ∀ m, m ∈ l ↔ inWindow sinceNs periodNs m ∧ (s.objs p).spec.denote (civil (s.objs p).loc m) = true := by
+  refine ⟨jobSchedule_none civil s name sinceNs periodNs, fun l hl => ?_⟩
+  obtain ⟨p, hp, hs, hm⟩ := jobSchedule_spec civil s name sinceNs periodNs l hl
+  obtain ⟨hpj, hpn⟩ := findJob_some hp
+  refine ⟨p, hp, hpj, hpn, hs, fun m => ?_⟩
+  rw [hm m, runsAt_eq_denote civil hr hciv p hpj m]
+
+/-- Schedule has an entry for exactly the window minutes some present job's spec denotes, carrying exactly those jobs -/
+theorem C20_schedule (s : Sched) (hr : Reach civil s) (sinceNs periodNs : Int) (m : Int) (js : List Nat) :
+    (m, js) ∈ scheduleList civil s sinceNs periodNs ↔
+      inWindow sinceNs periodNs m ∧
+      js = s.jobs.filter (fun p => (s.objs p).spec.denote (civil (s.objs p).loc m)) ∧ js ≠ [] := by
+  rw [scheduleList_spec]
+  have : s.jobs.filter (fun p => runsAt civil (s.objs p) m) =
+      s.jobs.filter (fun p => (s.objs p).spec.denote (civil (s.objs p).loc m)) := by
+    apply List.filter_congr
+    intro p hp
+    exact runsAt_eq_denote civil hr hciv p hp m
+  rw [this]
+
+end sched
+
+/-- a spec outside the grammar is refused by AddJob and leaves the object unchanged -/
+theorem C20_add_rejects (civil : CivilFn) (s : Sched) (name : Nat) (text : List Char) (loc : Nat)
+    (h : parseSpec text = none) :
+    (step civil s (.add name text loc)).2 ≠ .ok ∧ (step civil s (.add name text loc)).1.jobs = s.jobs := by
+  simp only [step, h]
+  split <;> simp
+
+/-- what the completeness hypothesis excludes: a timer function that runs in another minute than the one it was
+    armed for runs nothing (the jobs of that minute are missed, none runs at a wrong minute) -/
+theorem C20_late_tick_runs_nothing (civil : CivilFn) (s : Sched) (now : Int) (h : now ≠ s.next) :
+    firedAt civil s now = [] := by
+  rw [firedAt_eq]; simp [h]
+
+-- non-vacuity of the scheduler theorems: a reachable state with a present, enabled, matching job that fires,
+-- and one where a disabled job does not
+def civUTC : CivilFn := fun _ m => ⟨2026, 1, 1, ((m / 60) % 24).toNat, (m % 60).toNat, 4⟩
+def exState : Sched := (step civUTC (init 90) (.add 1 "30 1 * * *".toList 0)).1
+example : Reach civUTC exState := Reach.step _ _ (Reach.init 90) rfl
+example : firedAt civUTC exState 90 = [0] := by decide
+example : firedAt civUTC (step civUTC exState (.disable 1)).1 90 = [] := by decide
+example : firedAt civUTC (step civUTC (step civUTC exState (.disable 1)).1 (.enable 1)).1 90 = [0] := by decide
+example : jobSchedule civUTC exState 1 (60 * minuteNs + 5) (61 * minuteNs) = some [90] := by decide
 
 end ErgoVerif.Props.C20
